@@ -134,7 +134,8 @@ def kalman_helper(F, flt, role):
                     return cb
                 if role == 'std_velocity' and names == {'vel'}:
                     return cb
-                if role == 'project' and 'KalmanState' in cb.locals[0] and cb.nargs == 3 and m in ('update', 'distance'):
+                if role == 'project' and 'KalmanState' in cb.locals[0] and cb.d.get('vis') != 'Public' and \
+                        m in ('update', 'distance'):
                     return cb
         return None
     return _memo(F, 'kalman:%s:%s' % (flt, role), f)
